@@ -615,6 +615,11 @@ func (pc *pCtx) p7Lockset(s *pSite, wantRaces, wantOrder bool) {
 						if t.Op == token.MUL {
 							if al, ok := s.root(t.X).(*ssa.Alloc); ok {
 								rec(al, cname, accessInfo{fn: fn, ins: ins, locks: ls[ins]})
+							} else {
+								// a pointer read back from an atomic cell: the cells whose addresses were published there
+								for _, pal := range s.atomicPointees(t.X) {
+									rec(pal, cname, accessInfo{fn: fn, ins: ins, locks: ls[ins]})
+								}
 							}
 						}
 					case *ssa.Store:
@@ -864,4 +869,61 @@ func (pc *pCtx) p11bHandles(s *pSite, props []string, inCtxs map[*ssa.Function]m
 			}
 		}
 	}
+}
+
+
+// atomicPointees: v is a pointer obtained from Load() of an atomic.Value / atomic.Pointer cell of the site (possibly
+// through a type assertion); the result lists the cells whose addresses are stored into that atomic cell anywhere in
+// the site. Reading through the pointer reads one of those cells - without any lock the publication does not give.
+func (s *pSite) atomicPointees(v ssa.Value) []*ssa.Alloc {
+	cur := v
+	for i := 0; i < 4; i++ {
+		switch t := cur.(type) {
+		case *ssa.TypeAssert:
+			cur = t.X
+			continue
+		case *ssa.ChangeInterface:
+			cur = t.X
+			continue
+		case *ssa.Extract:
+			cur = t.Tuple
+			continue
+		}
+		break
+	}
+	c, ok := cur.(*ssa.Call)
+	if !ok {
+		return nil
+	}
+	f := c.Common().StaticCallee()
+	if f == nil || pkgPathOf(f) != "sync/atomic" || f.Signature.Recv() == nil || f.Name() != "Load" || len(c.Common().Args) != 1 {
+		return nil
+	}
+	cell, ok := s.root(c.Common().Args[0]).(*ssa.Alloc)
+	if !ok {
+		return nil
+	}
+	var out []*ssa.Alloc
+	for fn := range s.InTree {
+		for _, b := range fn.Blocks {
+			for _, ins := range b.Instrs {
+				c2, ok := ins.(*ssa.Call)
+				if !ok {
+					continue
+				}
+				f2 := c2.Common().StaticCallee()
+				if f2 == nil || pkgPathOf(f2) != "sync/atomic" || f2.Name() != "Store" || len(c2.Common().Args) != 2 || s.root(c2.Common().Args[0]) != ssa.Value(cell) {
+					continue
+				}
+				stored := c2.Common().Args[1]
+				if mi, ok := stored.(*ssa.MakeInterface); ok {
+					stored = mi.X
+				}
+				if al, ok := s.root(stored).(*ssa.Alloc); ok {
+					out = append(out, al)
+				}
+			}
+		}
+	}
+	return out
 }
